@@ -1,10 +1,13 @@
 #!/bin/sh
-# Offline build of the framework: regenerate Gen/*.lean from /repo, then build every
-# property module and the model driver.
+# Offline build of the framework: regenerate Driver.lean / Verif.lean and Gen/*.lean from /repo,
+# then build the model driver and every property module.  A property module that does not
+# build is reported by its own check (each check rebuilds what it needs), so it does not make
+# the setup fail; the driver must build.
 set -e
 DIR="$(cd "$(dirname "$0")" && pwd)"
 cd "$DIR"
 python3 tools/gen_driver.py
 PYTHONPATH="$DIR/py" PYTHONDONTWRITEBYTECODE=1 /venv/bin/python -c "from verifpy import translate; translate.translate()"
 cd lean
-lake build Verif verif-driver
+lake build verif-driver
+lake build Verif || echo "setup: some property modules do not build; their checks will report it" >&2
